@@ -49,3 +49,6 @@ func (i *InvalidationIndex) VerifIndexDump() map[string]map[string][]string {
 
 	return res
 }
+
+// VerifShards is the number of shards of ShardedMap and ShardedMapOf.
+const VerifShards = shards
